@@ -16,6 +16,11 @@ Driver for property C20 (file descriptors stay attached to the message that carr
           ev ::= f<nat> | r<hex>
         output: one `D <rawhex> a=<args> b=<queue before> q=<queue after>` per delivery, then
                 `| <buffer hex> <queue>`
+
+    W <client 0|1> <script> <n> (<rawhex> <declared|-> <idxlist|->){n} E <ev>*
+        the same on a freshly connected protocol in line mode (the queue exists from connectionMade
+        on); script = outcomes of the abstract authenticator per handled line (c / s / f, "-" = none);
+        output as for V, followed by ` <authenticated 0|1> <closed 0|1>`
 -/
 open Txdbus.Proto
 
@@ -119,10 +124,42 @@ def receiver (n : String) (toks : List String) : String :=
         " ".intercalate ds ++ " | " ++ Driver.bytesToHex r.1.st.buffer ++ " " ++ showNatList r.1.queue
     | _ => "error bad-table"
 
+def scripted : Auth (List AuthRes) :=
+  ⟨fun st _ => match st with
+    | [] => ([], .cont)
+    | r :: t => (t, r)⟩
+
+def parseScript (s : String) : Option (List AuthRes) :=
+  if s == "-" then some [] else
+  s.toList.mapM fun c =>
+    if c == 'c' then some AuthRes.cont else if c == 's' then some .success
+    else if c == 'f' then some .failed else none
+
+def b01 (b : Bool) : String := if b then "1" else "0"
+
+def receiverLine (client script n : String) (toks : List String) : String :=
+  match parseNat? n, parseScript script with
+  | some n, some sc =>
+    match parseTable n toks with
+    | some (table, "E" :: evs) =>
+      match evs.mapM parseEv with
+      | none => "error bad-event"
+      | some es =>
+        let s0 : St (List AuthRes) := St.init (client == "1") sc
+        let r := recvRun scripted (lookup table) ⟨s0, []⟩ es
+        let ds := r.2.map fun d =>
+          "D " ++ Driver.bytesToHex d.raw ++ " a=" ++ showOptList d.args ++ " b=" ++ showNatList d.queueBefore
+            ++ " q=" ++ showNatList d.queueAfter
+        " ".intercalate ds ++ " | " ++ Driver.bytesToHex r.1.st.buffer ++ " " ++ showNatList r.1.queue
+          ++ " " ++ b01 r.1.st.authenticated ++ " " ++ b01 r.1.st.closed
+    | _ => "error bad-table"
+  | _, _ => "error bad-input"
+
 def handle (line : String) : String :=
   match Driver.words line with
   | "S" :: hasSig :: oob0 :: toks => sender hasSig oob0 toks
   | "V" :: n :: toks => receiver n toks
+  | "W" :: client :: script :: n :: toks => receiverLine client script n toks
   | _ => "error bad-command"
 
 end DrvC20
